@@ -27,7 +27,7 @@ WRONG_KIND = {
 }
 
 
-def corruptions(ex, op, payload):
+def corruptions(ex, op, payload, enum_near_misses=False):
     """Yield (kind, response path, corrupted payload, expectation) for every single-point corruption.
     expectation: 'reject' | ('unknown_typename',) | ('swapped_typename', new name)."""
     schema = ex.schema
@@ -89,6 +89,18 @@ def corruptions(ex, op, payload):
                 out.append(("non_object_for_object", rpath, edit(keys, lambda c, k, b=bad: c.__setitem__(k, b)), "reject"))
             walk_obj(v, tn, sel, keys, rpath)
             return
+        if enum_near_misses and schema.kind(tn) == "ENUM" and isinstance(v, str):
+            # strings that are NOT values of the enum but look like one (other letter case, the value's Rust-style
+            # spelling): accepted into the catch-all and given back unchanged - under every option set alike (C09)
+            near = []
+            for val in [x[0] if isinstance(x, (tuple, list)) else x for x in schema.types[tn].values]:
+                for cand in (val.lower(), val.upper(), val.swapcase(), val.capitalize(), "".join(w[:1].upper() + w[1:].lower() for w in val.split("_"))):
+                    if cand not in near:
+                        near.append(cand)
+            known = set(x[0] if isinstance(x, (tuple, list)) else x for x in schema.types[tn].values)
+            for cand in near:
+                if cand not in known:
+                    out.append(("enum_near_miss", rpath, edit(keys, lambda c, kk, b=cand: c.__setitem__(kk, b)), "other"))
         k = tn if tn in WRONG_KIND else ("ENUM" if schema.kind(tn) == "ENUM" else "CUSTOM")
         for bad in WRONG_KIND[k]:
             out.append(("wrong_scalar_kind", rpath, edit(keys, lambda c, kk, b=bad: c.__setitem__(kk, b)), "reject"))
